@@ -81,6 +81,19 @@ Theorem C02_required_only_branch :
 Proof. exact required_only_branch. Qed.
 Print Assumptions C02_required_only_branch.
 
+(* Regression for the fixed finding F02e (commit 635317b): top-level pure aliases (chained, declared before or after
+   the target) get a model with exactly the target's declared fields, and the run fires no loss-relevant branch. *)
+Theorem C02_alias_regression :
+  all_present spec_alias (parse_doc default_max_depth spec_alias) = true
+  /\ events (parse_doc default_max_depth spec_alias) = []
+  /\ faithful_b spec_alias (parse_doc default_max_depth spec_alias) sAlias = true
+  /\ faithful_b spec_alias (parse_doc default_max_depth spec_alias) sAliasTwo = true
+  /\ faithful_b (rev spec_alias) (parse_doc default_max_depth (rev spec_alias)) sAliasTwo = true
+  /\ model_fields (parse_doc default_max_depth spec_alias) sAliasTwo
+     = Some [(sident, true, TPrim PInteger); (slabel, false, TPrim PString)].
+Proof. exact alias_regression. Qed.
+Print Assumptions C02_alias_regression.
+
 Theorem C02_refuted_F02a :
   guard_F02a (parse_doc default_max_depth spec_F02a) = false
   /\ ~ faithful spec_F02a (parse_doc default_max_depth spec_F02a) sUser
